@@ -216,8 +216,15 @@ class Interp(_Base):
                  if not (isinstance(d, ast.Name) and d.id in ("property", "classmethod",
                                                                "staticmethod"))
                  and not self.is_rule_func(fnode)]
+        cached = False
         if other:
-            return [(st, ("ret", self.undecided(st, node, "decorated callee " + fnode.name)))]
+            def _dn(d):
+                d = d.func if isinstance(d, ast.Call) else d
+                return d.id if isinstance(d, ast.Name) else getattr(d, "attr", "")
+            if all(_dn(d) in ("lru_cache", "cache", "cached_property", "wraps") for d in other):
+                cached = any(_dn(d) != "wraps" for d in other)
+            else:
+                return [(st, ("ret", self.undecided(st, node, "decorated callee " + fnode.name)))]
         frame = {}
         a = fnode.args
         params = [p.arg for p in a.posonlyargs + a.args]
@@ -277,6 +284,11 @@ class Interp(_Base):
         res = []
         for s, oc in outs:
             s.frames.pop()
+            if cached and oc[0] == "ret" and isinstance(oc[1], RefV):
+                # a memoised result is one object shared by every caller with equal arguments
+                o = s.heap[oc[1].oid]
+                o.fresh = False
+                o.sym = ("cached", qual, o.oid)
             if oc[0] == "ret":
                 res.append((s, oc))
             elif oc[0] == "raise":
@@ -509,8 +521,20 @@ class Interp(_Base):
         if name == "date":
             return self._mk_datetime(st, args, kwargs, node)
         if name in ("module:calendar.monthrange", "monthrange", "calendar.monthrange"):
-            return R(TupleV([IntV(0, 6), IntV(28, 31, ("monthrange",) + tuple(
-                getattr(a, "sym", None) for a in args))]))
+            if len(args) == 2 and all(isinstance(a, IntV) for a in args):
+                if args[1].lo < 1 or args[1].hi > 12:
+                    s2 = st.fork()
+                    ok = TupleV([IntV(0, 6, ("weekday1", args[0].sym, args[1].sym)),
+                                 IntV(28, 31, ("monthlen", args[0].sym, args[1].sym))])
+                    return [(st, ok), (s2, self.raised("datetime-field", "ValueError", node,
+                                                       "monthrange with month {}".format(args[1])))]
+                return R(TupleV([IntV(0, 6, ("weekday1", args[0].sym, args[1].sym)),
+                                 IntV(28, 31, ("monthlen", args[0].sym, args[1].sym))]))
+            return R(self.undecided(st, node, "monthrange arguments"))
+        if name in ("module:calendar.isleap", "isleap", "calendar.isleap"):
+            if args and isinstance(args[0], IntV):
+                return R(BoolV(None, sym=("isleap", args[0].sym)))
+            return R(BoolV(None, sym=("isleap?",)))
         if name.startswith("dt."):
             meth = name[3:]
             if meth == "date":
@@ -561,8 +585,8 @@ class Interp(_Base):
                 return R(IntV(0, max(len(b.items) - 1, 0), ("index",)))
             return R(self.undecided(st, node, "collection method " + meth))
         if name.startswith("logger.") or name.startswith("logging.") or \
-                name.startswith("result:logging.getLogger"):
-            return R(NONE)
+                (name.startswith("result:") and "logging" in name) or name.startswith("module:logging."):
+            return R(NONE)   # logging is not an effect the properties speak about
         if name in ("ValueError", "TypeError", "KeyError", "IndexError", "Exception",
                     "NotImplementedError", "AssertionError", "OverflowError", "StopIteration",
                     "RuntimeError"):
@@ -631,6 +655,17 @@ class Interp(_Base):
                 for nme, a in zip(names, args):
                     kwargs = dict(kwargs)
                     kwargs[nme] = a
+            elif len(args) == 2 and all(isinstance(a, DTV) for a in args):
+                # relativedelta(dt1, dt2): the difference split into years/months/days...
+                d = ("rddiff", args[0].sym, args[1].sym)
+                rel = {"years": IntV(-INF, INF, ("rddifffield", d, "years")),
+                       "months": IntV(-11, 11, ("rddifffield", d, "months")),
+                       "days": IntV(-30, 30, ("rddifffield", d, "days")),
+                       "hours": IntV(-23, 23, ("rddifffield", d, "hours")),
+                       "minutes": IntV(-59, 59, ("rddifffield", d, "minutes"))}
+                r = RDV({}, rel, sym=d)
+                r.is_diff = True
+                return r
             else:
                 return self.undecided(st, node, "positional relativedelta arguments")
         for k, v in kwargs.items():
@@ -722,7 +757,7 @@ class Interp(_Base):
             return "CHECKED"
         # leap-year constant stands for "valid in some year"
         for (cy, cm, cd) in st.checked:
-            if cm == m.sym and cd == d.sym and (cy == y.sym or _is_leap_const(cy)):
+            if cm == m.sym and cd == d.sym and cy == y.sym:
                 return "CHECKED"
         # dominated day: year and month copied from one valid date O, and the day is
         # known to be <= O.day on this path
